@@ -20,6 +20,10 @@ def run(ctx):
     rng = ctx.rng
     ns = [1, 2, 3, 4, 11, 12, 17, 40] if ctx.quick() else [1, 2, 3, 4, 5, 8, 11, 12, 15, 16, 17, 33, 64, 100, 300] * 2
     sts = [mpgen.statement(rng, n, max_dense=2) for n in ns]
+    # several openings at ONE evaluation point (the grouped polynomial of opening #0 receives further additions),
+    # with fewer and with more openings than CPUs
+    sts += [mpgen.statement(rng, n, max_dense=1, zpat="equal") for n in ((2, 3, 17, 40) if ctx.quick() else (2, 3, 5, 16, 17, 33, 40, 100))]
+    sts += [mpgen.statement(rng, n, max_dense=1, zpat="clustered") for n in ((20,) if ctx.quick() else (20, 50))]
     # commitments shared by POINTER between openings, systematically: adjacent and non-adjacent repeats of
     # projective (as returned by Commit), rescaled and normalised elements
     for pat in (["k", "n", "p0"], ["k", "p0", "n"], ["s7", "k", "p0", "p1"], ["k", "n", "n", "p0", "p1", "p0"], ["n", "k", "p1", "p0"],
